@@ -106,13 +106,15 @@ def gen_rebin(rng, tier):
     cases = []
     for k in range(6 if tier == "quick" else 60):
         w = rng.choice([0.25, 0.5]); hw = rng.choice([1.0, 2.0]); freq = rng.randint(1, 3); weight = rng.choice([0.2, 0.5])
-        nb = rng.randint(24, 32); lo = rng.dyadic(-4, -2, 1); hi = lo + nb * w
-        cut_lo = rng.randint(3 * int(hw) + 3, 3 * int(hw) + 6) if k % 3 != 2 else 0       # the new grid is narrower on one or both sides
-        cut_hi = rng.randint(3 * int(hw) + 3, 3 * int(hw) + 6) if k % 3 != 1 else 0
+        # in a third of the cases the second run is configured with wider hills: the hills read from the state keep the width they were deposited with
+        hw2 = 2.0 * hw if k % 3 == 1 else hw
+        nb = rng.randint(24, 32) + (12 if hw2 > 2.0 else 0); lo = rng.dyadic(-4, -2, 1); hi = lo + nb * w
+        cut_lo = rng.randint(3 * int(hw2) + 3, 3 * int(hw2) + 6) if k % 3 != 2 else 0       # the new grid is narrower on one or both sides
+        cut_hi = rng.randint(3 * int(hw2) + 3, 3 * int(hw2) + 6) if k % 4 != 1 else 0
         lo2, hi2 = lo + cut_lo * w, hi - cut_hi * w
         def mconf(rebin):
             return ("metadynamics {\n name mt\n colvars x0\n hillWeight %s\n newHillFrequency %d\n hillWidth %s\n keepHills on\n%s}\n"
-                    % (num(weight), freq, num(hw), " rebinGrids on\n" if rebin else ""))
+                    % (num(weight), freq, num(hw2 if rebin else hw), " rebinGrids on\n" if rebin else ""))
         pfx = os.path.join(work, "rb%d" % k)
         lines = ["m.new 1", "M.noclock", cfg(inj_cv("x0", 0, lo, hi, w)), cfg(mconf(False))]
         hist = []
@@ -146,21 +148,22 @@ def gen_rebin(rng, tier):
             lines += [pos(0, 0.0, 0.0, x), "m.step"]
             hist.append({"x": x, "run": 2, "line": len(lines), "first": s_ == 0})
             lines += ["m.bias mt", "m.cv x0 fa"]
-        cases.append({"lines": lines, "meta": {"family": "rebin", "w": w, "hw": hw, "freq": freq, "weight": weight, "lo": lo, "hi": hi, "lo2": lo2, "hi2": hi2,
+        cases.append({"lines": lines, "meta": {"family": "rebin", "w": w, "hw": hw, "hw2": hw2, "freq": freq, "weight": weight, "lo": lo, "hi": hi, "lo2": lo2, "hi2": hi2,
                                                "history": hist, "load": loadl, "grids": True, "nd": 1, "wt": False, "keep": True, "period": [0.0], "expand": [False],
                                                "sig": [w * hw / 2.0]}, "nontrivial": True})
     return cases
 
 
 def oracle_rebin(case, out):
-    m = case["meta"]; w = m["w"]; sig = w * m["hw"] / 2.0
+    m = case["meta"]; w = m["w"]
+    sig1 = w * m["hw"] / 2.0; sig2 = w * m.get("hw2", m["hw"]) / 2.0
     rc = out.get((m["load"], "rc", 1))
     if rc != ["i0"]:
         return [(None, "a state with kept hills could not be read by a bias with rebinGrids on and a narrower grid")]
     hills = []
 
     def g(c, x):
-        s = ((x - c) / sig) ** 2
+        s = ((x - c[0]) / c[1]) ** 2
         return 0.0 if s > 23.0 else math.exp(-0.5 * s)
     it = 0; first = True; rel = 0
     for h in m["history"]:
@@ -173,12 +176,12 @@ def oracle_rebin(case, out):
             it += 1; rel += 1
         x = h["x"]
         if rel > 0 and it % m["freq"] == 0:
-            hills.append(x)
+            hills.append((x, sig1 if h["run"] == 1 else sig2))
         nb = int(math.floor((hi - lo) / w + 0.5)); b = int(math.floor((x - lo) / w))
         inside = 0 <= b < nb
         xe = lo + w * (b + 0.5) if inside else x
         e_exp = sum(m["weight"] * g(c, xe) for c in hills)
-        f_exp = sum(m["weight"] * g(c, xe) * (xe - c) / sig ** 2 for c in hills)
+        f_exp = sum(m["weight"] * g(c, xe) * (xe - c[0]) / c[1] ** 2 for c in hills)
         e = vals(out, h["line"] + 1, "e"); fa = vals(out, h["line"] + 2, "fa")
         if e is None or fa is None:
             return [(None, "no energy / force reported at step %d" % it)]
@@ -186,7 +189,7 @@ def oracle_rebin(case, out):
         where = "%s the %s grid [%r, %r)" % ("inside" if inside else "outside", "old" if h["run"] == 1 else "new, narrower", lo, hi)
         if abs(e[0] - e_exp) > 2e-5 * scale:
             return [(None, "step %d, run %d (%s, kept hills rebinned after the restart): metadynamics energy %r, the sum of all %d hills gives %r" % (it, h["run"], where, e[0], len(hills), e_exp))]
-        if abs(fa[0] - f_exp) > 2e-5 * scale / sig + 1e-9:
+        if abs(fa[0] - f_exp) > 2e-5 * scale / min(sig1, sig2) + 1e-9:
             return [(None, "step %d, run %d (%s, kept hills rebinned after the restart): metadynamics force %r, minus the gradient of the sum of all %d hills gives %r" % (it, h["run"], where, fa[0], len(hills), f_exp))]
     return []
 
